@@ -1,0 +1,37 @@
+//go:build verif
+
+package NoKV
+
+// VerifSnapOracleState is a snapshot of the transaction oracle's counters for the C05
+// correspondence harness (build tag verif only).
+type VerifSnapOracleState struct {
+	NextTs    uint64 // oracle.nextTxnTs
+	TxnDone   uint64 // txnMark.DoneUntil
+	TxnLast   uint64 // txnMark.LastIndex
+	ReadDone  uint64 // readMark.DoneUntil
+	ReadLast  uint64 // readMark.LastIndex
+	Committed int    // len(committedTxns)
+	Locked    bool   // the oracle mutex is held by somebody
+}
+
+// VerifSnapOracleState reads the oracle. The harness calls it only while every goroutine that
+// could be inside the oracle is parked at a yield point, so the unlocked read of committedTxns
+// (when a parked goroutine holds the mutex) does not race.
+func (db *DB) VerifSnapOracleState() VerifSnapOracleState {
+	o := db.orc
+	st := VerifSnapOracleState{
+		NextTs:   o.nextTxnTs.Load(),
+		TxnDone:  o.txnMark.DoneUntil(),
+		TxnLast:  o.txnMark.LastIndex(),
+		ReadDone: o.readMark.DoneUntil(),
+		ReadLast: o.readMark.LastIndex(),
+	}
+	if o.TryLock() {
+		st.Committed = len(o.committedTxns)
+		o.Unlock()
+	} else {
+		st.Locked = true
+		st.Committed = len(o.committedTxns)
+	}
+	return st
+}
